@@ -14,6 +14,7 @@ import (
 	"bytes"
 	"fmt"
 	"runtime"
+	"runtime/debug"
 	"sort"
 	"strconv"
 	"sync"
@@ -74,6 +75,7 @@ type Sim struct {
 	MapIterSites map[string]int
 	UnlabeledKey int
 	Trace        func(kind string, t *Task, detail string)
+	OnPanic      func(t *Task, r interface{}, stack []byte)
 }
 
 var S = &Sim{}
@@ -91,6 +93,7 @@ func Reset() {
 	S.MapIterSites = map[string]int{}
 	S.UnlabeledKey = 0
 	S.Trace = nil
+	S.OnPanic = nil
 	S.mu.Unlock()
 }
 
@@ -169,10 +172,23 @@ func TaskStart(t *Task) {
 	t.Park("start", "")
 }
 
-// TaskEnd marks the task finished.
+// TaskEnd marks the task finished.  It is always called as a deferred function
+// of the task's goroutine, so it also contains panics of the code under test: a
+// panic is reported to the simulator (the simulated process crashes) instead of
+// taking the whole simulator down.
 func TaskEnd(t *Task) {
 	if t == nil {
 		return
+	}
+	if r := recover(); r != nil {
+		S.mu.Lock()
+		h := S.OnPanic
+		active := S.Active
+		S.mu.Unlock()
+		if h == nil || !active {
+			panic(r)
+		}
+		h(t, r, debug.Stack())
 	}
 	g := goid()
 	S.mu.Lock()
